@@ -70,6 +70,26 @@ def predicate(job, res):
     for rel in res['outputs']:
         if rel not in seen:
             fails.append({'what': 'output file for a file that was not processed', 'file': rel})
+    # partial recovery: "blocks that cannot be repaired are copied through unchanged ALONGSIDE THE REPAIRED ONES" — a damaged block that
+    # is flagged (hash mismatch) and lies within the errors-only capacity of its stored parity is restored in the output even when
+    # other blocks of the file are beyond repair.  Not demanded when the documented give-up rule can apply (the first 11 blocks of the
+    # file are all damaged beyond capacity), nor with erasure handling on (decoder completeness there is the open finding of C02).
+    if not job.get('erasures') and res.get('markers_ok', True):
+        for ent in res.get('files', []):
+            fs = ent.get('facts') or []
+            if ent.get('ill_formed') or not fs or any('repairable' not in f for f in fs):
+                continue
+            head = fs[:11]
+            if len(head) == 11 and all(f['dmg'] and not f['repairable'] for f in head):
+                continue
+            if not any(f['dmg'] and not f['repairable'] for f in fs):
+                continue          # fully repairable files are C01's subject
+            ob = res['outputs'].get(ent['rel'])
+            for bi, f in enumerate(fs):
+                if f['dmg'] and f['repairable'] and not f['in_hash_ok'] and (ob is None or not f.get('restored')):
+                    fails.append({'what': 'partial recovery: a repairable block was not restored next to an unrepairable one',
+                                  'file': ent['rel'], 'block': bi, 'output_written': ob is not None})
+                    break
     return fails
 
 
@@ -174,7 +194,7 @@ def tree(rng, job, maxlen=3000):
 
 def damage(rng):
     k = rng.choice(['file_rand', 'file_rand', 'file_burst', 'file_zero', 'file_all', 'hash', 'parity', 'track', 'both', 'both',
-                    'trunc', 'extend', 'extend', 'cut_track', 'cut_track', 'none', 'over1', 'over1', 'parity_swap'])
+                    'trunc', 'extend', 'extend', 'cut_track', 'cut_track', 'none', 'over1', 'over1', 'parity_swap', 'late_mix'])
     d = {'kind': k, 'targets': rng.choice(['one', 'all', 'all']), 'weight': rng.choice([1, 1, 2, 3, 5, 8, 20, 60, 300, 1500])}
     if k in ('hash', 'parity', 'track', 'both'):
         d['nblocks'] = rng.choice([1, 2, 5, 'all'])
@@ -246,6 +266,9 @@ def corpus(rng):
         for hk in HASHES:
             out.append(dict(b, hash=hk, fast=True, tree={'a.bin': mid, 'b': small}, damage={'kind': 'parity_swap', 'targets': 'all'}))
         out.append(dict(b, hash='minimd5', fast=False, tree={'a.bin': mid}, damage={'kind': 'parity_swap', 'targets': 'all', 'blocks': 'some'}))
+        # partial recovery far from the start of the file: >= 10 intact blocks, one destroyed block, a later repairable one
+        for dseed in (1, 2, 3):
+            out.append(dict(b, size=1024, tree={'big': big, 'mid.bin': mid}, damage={'kind': 'late_mix', 'targets': 'all'}, dseed=dseed))
     return out
 
 
